@@ -17,11 +17,22 @@ def _(c):
     c.epoch_preserving()
 
 
+def _gen_line(rnd):
+    from spec import wl_print
+    return (wl_print.generate(rnd),)
+
+
 @contract('backends.libwayland_debug_output.parse.message')
 def _(c):
-    c.trusted('C01: decodes exactly the libwayland message lines; any other text raises RuntimeError carrying that text')
+    c.prop('C01')
+    c.bounded('regular-expression decoder: outside the verifier. At call sites: decodes exactly the libwayland message lines; any other text raises RuntimeError carrying that text. '
+              'On generated inputs (messages rendered as libwayland prints them in both dialects - every argument kind in every position, 0..20 arguments, 32-bit boundary values, '
+              'both fixed renderings, queue / connection tags, strings with commas, brackets, parentheses, look-alike message text): the decoded message equals the rendered one; '
+              'lines that contain no message raise')
     c.returns('Tuple(str, Obj("core.wl.message.Message"))')
-    c.raises('RuntimeError', when='not is_wl_line(raw)', msg='raw')
+    c.raises('RuntimeError', when='not is_wl_line(raw)', msg='raw', native_when='not denotes_a_message(raw)')
+    c.ensures('decoded_as_rendered(raw, result)', 'decodes_to_the_message_it_denotes', native_only=True)
+    c.native_gen(_gen_line, quick=4000, thorough=60000)
     c.ensures('fresh(result[1])')
     c.modifies('new', 'cell(core.wl.message.Message.base_time)')
     c.epoch_preserving()
@@ -124,3 +135,55 @@ def _(c):
     c.let('j0', 'n_rej()')
     c.ensures('(n_fwd() - f0) + (n_unp() - u0) == (n_read() - r0) + (n_rej() - j0)', 'exactly_one_item_per_line_read_unless_the_sink_rejects_a_message')
     c.modifies('ext', 'input', 'counts', 'trace', 'new', 'cell(core.wl.message.Message.base_time)', 'ui', 'when(ui_state() is not None, ui_state()._paused)')
+
+
+# ---------------------------------------------------------------------------------------------------------------------
+# C01, the part within the verifier's reach: the two string loops that cut an argument list into its items
+@contract('backends.libwayland_debug_output.parse.end_of_str')
+def _(c):
+    """from an opening quote to the closing one: for text without backslashes the result is the next quote after i (or the end)"""
+    c.prop('C01')
+    c.types(args_str='str', i='int').returns('int')
+    c.requires('0 <= i and i < len(args_str)')
+    c.let('plain', 'all(args_str[k] != "\\\\" for k in range(i + 1, len(args_str)))')
+    c.ensures('result > i and result <= len(args_str) + 1', 'moves_forward_and_stays_near')
+    c.ensures('(not plain) or (result <= len(args_str) and all(args_str[k] != \'"\' for k in range(i + 1, result)) and (result == len(args_str) or args_str[result] == \'"\'))',
+              'stops_at_the_next_quote')
+    lp = c.loop(0)
+    lp.invariant('old(i) + 1 <= i and i <= len(args_str) + 1', 'bounds')
+    lp.invariant('(not plain) or (i <= len(args_str) and all(args_str[k] != \'"\' for k in range(old(i) + 1, i)))', 'no_quote_skipped')
+    lp.decreases('len(args_str) + 1 - i')
+    c.modifies()
+    c.native_gen(lambda rnd: _gen_eos(rnd))
+
+
+def _gen_eos(rnd):
+    s = ''.join(rnd.choice(['a', '"', ',', ' ', '\\', ')']) for _ in range(rnd.randint(1, 10)))
+    return (s, rnd.randrange(len(s)))
+
+
+@contract('backends.libwayland_debug_output.parse.argument_list_strs')
+def _(c):
+    """cutting never fails and always terminates; the items are what lies between the separators that are outside quoted text
+    (the exact positions are only checked through the bounded comparison on parse.message)"""
+    c.prop('C01')
+    c.types(args_str='str', result='List(str)').returns('List(str)')
+    c.ensures('fresh(result)')
+    c.ensures('len(args_str) > 0 or len(result) == 0', 'nothing_from_nothing')
+    c.ensures('all(len(result[k]) <= len(args_str) for k in range(0, len(result)))', 'items_are_not_longer_than_the_text')
+    lp = c.loop(0)
+    lp.invariant('0 <= i and 0 <= start and start <= i + 1', 'bounds')
+    lp.invariant('all(len(result[k]) <= len(args_str) for k in range(0, len(result)))', 'items_so_far')
+    lp.invariant('i > 0 or len(result) == 0', 'nothing_yet')
+    lp.invariant('len(args_str) > 0 or (i == 0 and start == 0)', 'empty_text_is_not_entered')
+    lp.modifies('list(result)')
+    lp.decreases('len(args_str) + 2 - i')
+    c.modifies('new')
+    c.native_gen(lambda rnd: (''.join(rnd.choice(['a', '"', ', ', ',', ' ', '\\', 'b)']) for _ in range(rnd.randint(0, 10))),))
+
+
+from pyvc import contracts as _c
+_c.PROP_LEVEL['C01'] = 'other'
+_c.PROP_NOTES['C01'] = ('Discharged obligations only for the two string loops (end_of_str, argument_list_strs). The regular-expression decoder parse.message is a bounded stand-in: '
+                        'generated messages rendered like wl_closure_print in both dialects, decoded by the real function and compared field by field; non-message lines must raise. '
+                        'Not proof; the bound is the number of generated lines reported under native_differential_search.')
